@@ -1865,6 +1865,7 @@ func runC03(c *Ctx) error {
 			if why == "" {
 				c.Case(L(I(1), ssx, c03VecSX(vecs)), obs)
 				c.Hist("ssa-listing-cases")
+				c03cgCase(c, p.src(), ssx, vecs, &out.res) // SSA -> circuit model (c03cg.go, modes 4/5)
 			} else {
 				ssaSkipped[why]++
 			}
